@@ -30,6 +30,18 @@ def run(tier, seed):
         c = b.case()
         c.run = False
         base.append(c)
+    # parameter lists full of names that collide with the fn name / with generated names (largest rename sets)
+    from . import c16
+    syms = sorted(c16.ALPHABET)
+    k = 0
+    while k < n // 3:
+        lst = tuple(rng.choice(syms) for _ in range(rng.randint(3, 6)))
+        if not c16.valid(lst):
+            continue
+        f = c16.make_fn(lst, rng.random() < 0.3)
+        src = "#[::entrait::entrait(Subj%s)] /*@inv*/\n%s\n" % (", no_deps" if f.deps_kind == "no_deps" else "", f.source(""))
+        base.append(core.Case("n_%05d" % k, src, run=False, expect="expand"))
+        k += 1
     groups = {}
     total_records = 0
     procs = set()
